@@ -551,11 +551,13 @@ def compile_case(b, case, wd, tag):
     return paths, None
 
 
-def run_cases(b, drv, cases, wd, part, probes3):
+def run_cases(b, drv, cases, wd, part, probes3, bc=None):
+    """b: build whose prober runs the lookups; bc: build whose g-ir-compiler produces the typelibs"""
     nprobes, gprobes, eprobes = probes3
+    bc = bc or b
     ok_cases, paths = [], []
     for i, case in enumerate(cases):
-        p, prob = compile_case(b, case, wd, 'c%d' % i)
+        p, prob = compile_case(bc, case, wd, 'c%d' % i)
         part.add(evaluations=len(case.docs))
         if p is None:
             part.violation('typelib-compile|%s' % case.key(), prob, case.case())
@@ -577,7 +579,7 @@ def run_cases(b, drv, cases, wd, part, probes3):
             part.outcome('crash')
             return
         for c in ok_cases:
-            run_cases(b, drv, [TLCase(c.mask, c.pair)], wd, part, probes3)
+            run_cases(b, drv, [TLCase(c.mask, c.pair)], wd, part, probes3, bc)
         return
     counts = {'lookups': 0, 'unspecified': 0, 'na': 0, 'must_found': 0}
     bad = judge_typelib_output(ok_cases, out.decode('ascii', 'replace').splitlines(), plan, part, counts)
@@ -604,15 +606,17 @@ def run_cases(b, drv, cases, wd, part, probes3):
 
 
 def _work_typelib(chunk):
-    tier, asan, groups = chunk
+    tier, asan, asan_compile, groups = chunk
     part = Part()
     b = cbuild.build(asan)
+    bc = b if asan_compile == asan else cbuild.build(asan_compile)
     drv = b.driver('drv_hash')
     wd = tools.workdir('c14t')
     probes3 = tl_probes()
     try:
         for group in groups:
-            run_cases(b, drv, [TLCase(m, pair) for m, pair in group], wd, part, probes3)
+            run_cases(b, drv, [TLCase(m, pair) for m, pair in group], wd, part, probes3, bc)
+            part.add(**{'typelib_cases_compiled_with_asan' if asan_compile else 'typelib_cases_compiled_plain': len(group)})
     finally:
         tools.cleanup(wd)
     return part.result()
@@ -823,6 +827,8 @@ def run(ctx):
     asan = thorough
     b = cbuild.build(asan)
     b.driver('drv_hash')
+    if asan:
+        cbuild.build(False)
     allseeds = covering_seeds()
     seeds = allseeds if thorough else allseeds[:3]
     ladder = LADDER_THOROUGH if thorough else LADDER_QUICK
@@ -839,7 +845,8 @@ def run(ctx):
                  'in-process and through g-ir-compiler + prober (all members + 10 generated probes per member). '
                  'non-trivial = every key set (each has at least one member that MUST be found)%s'
                  % ((1 << NA) - 1, seeds, len(hprobes), len(masks), len(nprobes), len(gprobes), len(eprobes), ladder,
-                    '; ASan+UBSan build' if asan else ''),
+                    ('; in-process explorer, lookup prober, ladder and bisection compiles and the compiles of the quick tier\'s '
+                     '200 key sets run as ASan+UBSan builds' if asan else '')),
             bounds={'alphabet': NA, 'subsets_inprocess': (1 << NA) - 1, 'seeds': seeds, 'subsets_typelib': len(masks),
                     'probes_inprocess': len(hprobes), 'probes_name': len(nprobes), 'probes_gtype': len(gprobes),
                     'probes_domain': len(eprobes), 'ladder': ladder, 'asan': asan})
@@ -852,10 +859,14 @@ def run(ctx):
         for n in sorted(ladder, reverse=True):
             jobs.append((_work_ladder_compile, (ctx.tier, asan, n, outdir)))
             jobs.append((_work_ladder_hash, (ctx.tier, asan, n)))
+        # thorough: lookups always run in the ASan+UBSan prober; the sanitized g-ir-compiler (whose start-up
+        # dominates the cost) compiles the quick tier's selection of key sets, the plain one the others
         group = 6
-        groups = [[(m, True) for m in masks[i:i + group]] for i in range(0, len(masks), group)]
-        for c in chunked(rotate(groups, ctx.seed), 64 if thorough else 32):
-            jobs.append((_work_typelib, (ctx.tier, asan, c)))
+        sel = set(typelib_masks('quick')[0]) if thorough else set()
+        for flag, ms in ((asan, [m for m in masks if m in sel]), (False, [m for m in masks if m not in sel])):
+            groups = [[(m, True) for m in ms[i:i + group]] for i in range(0, len(ms), group)]
+            for c in chunked(rotate(groups, ctx.seed), 64 if len(groups) > 256 else 32):
+                jobs.append((_work_typelib, (ctx.tier, asan, flag, c)))
         total = 1 << NA
         nr = 128 if thorough else 48
         ranges = [(max(1, i * total // nr), (i + 1) * total // nr) for i in range(nr)]
